@@ -35,22 +35,21 @@ CHECKS['C08'] = dict(
 
 CHECKS['C09'] = dict(
     text='Lean 4 theorems on the model of FileIndex.save/load: a saved index loads back identically against the unchanged data '
-         'file; with the complete index on disk any change of the data size is refused with the error that triggers re-indexing; '
+         'file; with the complete index on disk any change of the data size is refused with the error that triggers re-indexing and the stale index file is deleted; '
          'for EVERY truncation length of the index file (crash during save) and any later append/truncate of the data file, whatever '
          'load accepts lists exactly the messages of a fresh sequential scan of the current data. Tied to file_index.py by '
          'correspondence over every truncation length of real .p1i files; MixedLogReader compared with a fresh scan.',
     ref='4 C09', technique='Lean 4 proof (codec round trip, prefix-decoding lemma, scan-of-truncated-file lemma) + correspondence',
     note='Trusted: Lean kernel + 3 standard axioms; harness; file system modelled (np.fromfile = whole records, crash = any prefix of '
-         'the written bytes); data-file changes limited to append/truncate (the property\'s history alphabet); entries of type INVALID(0) '
-         'and P1 times >= 2^32-1 s excluded by hypothesis.')
+         'the written bytes); data-file changes limited to append/truncate (the property\'s history alphabet; replacement, shrink-to-junk-and-regrow and same-size rewrites are exercised by scripted histories on the implementation); entries of type INVALID(0) excluded by hypothesis of the codec theorem (a type-0 last entry makes the index marker-less: refused and rebuilt, exercised); P1 times >= 2^32-1 s are stored as "no time" since repair b7ff1d5.')
 
 CHECKS['C20'] = dict(
     text='Lean 4 theorems over a bounds-checked NUL-terminated-buffer model of FromString/strtol, ToString and the six operators: '
          'round trip for every version, no read beyond the terminator for every string, result = grammar <0-255>.<0-65535> (else '
          'invalid), operators = lexicographic total order; model tied to the compiled code under ASan+UBSan on exhaustive short '
-         'strings, boundary/random strings, all versions (thorough) and operator grids.',
+         'strings, boundary/random strings, all versions (thorough) and operator grids, repeated under in-process digit-grouping locales and stream flags and on objects copied out of wire bytes with every kind of reserved byte.',
     ref='4 C20', technique='Lean 4 proof on an executable model + model/compiled-code correspondence under AddressSanitizer',
-    note='Full after fix a4e1937. Trusted: Lean kernel; propext/Classical.choice/Quot.sound; strtol modelled by contract (checked '
+    note='Full after fix a4e1937 and e22c057 (operator<< independent of the stream\'s locale and flags). Trusted: Lean kernel; propext/Classical.choice/Quot.sound; strtol modelled by contract (checked '
          'against libc each run); ASan validates the memory model on generated inputs; leading zeros admitted; 255.65535 is the '
          'invalid version.')
 
@@ -68,9 +67,9 @@ CHECKS['C19'] = dict(
 
 CHECKS['C03'] = dict(
     text='Translators on both sides regenerate Nat-coded finite tables on every run (C++ values printed by a compiler-built probe '
-         'against the real headers; Python values from the imported working tree cross-checked with ast.parse); 40 kernel-decided '
+         'against the real headers; Python values from the imported working tree cross-checked with ast.parse); 45 kernel-decided '
          'theorems over them: one per enum pair, pairing completeness on both sides, sentinel justification, command/response '
-         'classification for every MessageType value, registry bijection with equal versions. A table diff yields the concrete '
+         'classification for every MessageType value through every declared C++ call form, registry bijection with equal versions, every access path to a named value (attribute, E[name], E(name), from_string, by number, iteration) in two enumeration orders, no mutation site of the classification tables anywhere in the package. C++ tables are generated under the repository\'s own CMAKE_CXX_STANDARD and every later standard is re-judged; the registry relation is re-observed in a fresh interpreter after each exercised entry point. A table diff yields the concrete '
          'witness when a theorem stops checking.',
     ref='4 C03', technique='translators + Lean 4 `decide +kernel` over regenerated finite tables',
     note='Full over the regenerated tables. Trusted: translators as readers of names (completeness checked by compiler '
@@ -96,10 +95,10 @@ CHECKS['C15'] = dict(
          'equal-length, pairwise-equal, strictly ascending times = the sorted set of the intersection (DROP) / union (INSERT); every '
          'result entry is the first input message with that time or (INSERT only) a fabricated default carrying the slot time; '
          'unselected types are unchanged. Tied to data_loader.py on every run by bounded-exhaustive and random correspondence (object '
-         'identity via id(), content via a deep snapshot), including through read(time_align=...).',
+         'identity via id(), content via a deep snapshot), including through read(time_align=...), histories of alignments on one dictionary (theorem C15_history_refines_spec) and histories of read() calls on one loader.',
     ref='4 C15', technique='Lean 4 refinement proof (index-based numpy re-indexing -> set-algebra spec) + correspondence + direct oracle',
     note='Trusted: Lean kernel; propext, Classical.choice, Quot.sound; the harness; np.unique / np.intersect1d modelled by documented '
-         'semantics and compared with numpy each run; times are exactly representable floats; unchanged content and '
+         'semantics and compared with numpy each run; the Lean model is over abstract ordered times - the direct-call stages use exactly representable floats, the file-based stages write wire timestamps on 0.1 s / 1 ms / 1 ns grids and judge by the wire value for every discovered timestamp decoder family; unchanged content and '
          'default-valuedness of inserted objects are tested, not proved.')
 CHECKS['C16'] = dict(
     text='Lean 4: decided over the table extracted from every to_numpy classmethod on each run that every same-named key reads its '
@@ -110,8 +109,7 @@ CHECKS['C16'] = dict(
          'field values, plus the property statement run directly as oracle.',
     ref='4 C16', technique='ast translator -> generated Lean table + decide; structural induction; correspondence + direct oracle',
     note='Trusted: Lean kernel, 3 axioms, translator as reader of names/shapes (cross-checked), attribute encoder of the harness, NumPy. '
-         'Opaque entries (listed in evidence) decided by running only. Two documented deviations reported as open findings '
-         '(CalibrationStatus leading-UNKNOWN trimming; MeasurementDetails p1_time fill-in), both characterised by _partial theorems.')
+         'A to_numpy the AST reader cannot express is read by probing the running class (entries accepted only if they reproduce the real output bit for bit on every probe; marked in the generated file and the evidence). MessageData.to_numpy as a whole and the DataLoader.to_numpy dictionary loop are modelled (mdToNumpy, loaderToNumpy) and driven through operation sequences. Opaque entries (listed in evidence) decided by running only. Open findings: CalibrationStatus leading-UNKNOWN trimming; MeasurementDetails p1_time fill-in (both characterised by _partial theorems); the conversion cache of MessageData.to_numpy is a heuristic (same count, same end times) and members of an earlier conversion are never removed.')
 CHECKS['C02'] = dict(
     text='A probe program compiled with the real headers yields sizeof/alignof/offsetof/kinds for all 68 structs '
          '(Generated/C02CxxLayout.lean, regenerated each run); Lean 4 theorems: every struct is packed (members tile [0,sizeof), '
@@ -151,7 +149,7 @@ CHECKS['C18'] = dict(
          'messages the sequential scan accepts and the count is their number; scanning the output afresh finds exactly those '
          'messages at the offsets the index builder recorded (scan-of-concatenation lemma); extracting the output again gives the '
          'same bytes and count; no message => no output file. Tied to utils/log.py and the p1_extract entry point by '
-         'correspondence (output bytes, count, written .p1i vs the .p1i of a fresh indexing of the output, second extraction).',
+         'correspondence (output bytes, count, written .p1i vs the .p1i of a fresh indexing of the output, second extraction - also in place under the default output name, through p1_extract with the same stem, and through a symlink / hard link / symlinked directory - the locate_log entry point, files of an earlier extraction at the output path, per-type counts).',
     ref='4 C18', technique='Lean 4 proof (scan of a concatenation of whole messages; idempotence) + correspondence',
     note='Inherits C08 (the reader iterates the index = sequential scan, messages within the indexer size limit). P1 times/types in '
          'the written index are compared with a fresh indexing on the implementation (not in the Lean model). File system modelled.')
@@ -163,8 +161,7 @@ CHECKS['C12'] = dict(
          'concrete histories. Tied to data_loader.py by correspondence on generated call histories; oracle = same call on a fresh loader.',
     ref='4 C12', technique='Lean 4 invariant induction over call histories + refinement of one read to a closed form; correspondence',
     note='The reader, time alignment and numpy conversion internals are parameters of the model, measured from the real code on every '
-         'run. Restricted to max_bytes=None, return_bytes=False and logs whose source ids are all discovered. Five repository defects '
-         'repaired (see KNOWN_FINDINGS.txt).')
+         'run. Restricted to max_bytes=None and return_bytes=False; the source-id discovery hypothesis is needed only for max_messages < 0. Ten repository defects repaired; open findings: last-N with an undiscovered source id, require_system_time for types carrying measurement details (see KNOWN_FINDINGS.txt). Histories include reads that raise, open() on a used loader, argument objects shared between calls, loaders and logs, and logs larger than the prefix open() probes.')
 CHECKS['C01'] = dict(
     text='Lean 4 layout language with executable parse/build/sizeOf; generic theorems by induction over layouts (parse-build round '
          'trip, second serialisation reproduces the bytes, sizes agree, offset independence, buildInto frame) under a decidable '
@@ -196,7 +193,7 @@ CHECKS['C13'] = dict(
          'that restart() re-establishes this with the origin retained, and that make_absolute, intersect (pointwise conjunction of '
          'accepted sets, incl. untimed messages, under agreeing origins) and parse yield the described intervals; the model is tied '
          'to the code on every run (bounded-exhaustive sequences x constructor grid x restart, all range pairs, parse strings: '
-         'verdicts and all attributes), and the Lean spec is run as oracle against TimeRange.',
+         'verdicts and all attributes), and the Lean spec is run as oracle against TimeRange. Messages are real objects of every payload class classified from their documented fields (get_p1_time / get_system_time_ns modelled, theorem C13_is_in_range_on_messages); every constructor argument in every spelling; two-object operation scripts; caller-owned objects mutated in place between and after calls.',
     ref='4 C13', technique='Lean 4 refinement proof (latch state machine -> interval predicate, invariant induction) + correspondence',
     note='Trusted: Lean kernel; propext, Classical.choice, Quot.sound; harness tools/props/c13.py. Times modelled as integers (harness '
          'uses 0.25 s multiples where float arithmetic is exact); NaN/-inf bounds and out-of-order P1 times excluded; float() external '
@@ -209,7 +206,7 @@ CHECKS['C07'] = dict(
          'buffer index accessed in any reachable state is below capacity_bytes_, the buffer address is 4-aligned and inside the '
          'caller\'s storage; same messages as the Python decoder with max payload capacity-24 (capacity <= 24+2^24). The C++ harness '
          'is compiled from src/ on every run under ASan/UBSan with exact-size misaligned buffers and compared per call with the Lean '
-         'driver; oracles: the scan and the real Python decoder.',
+         'driver; oracles: the scan and the real Python decoder. SetBuffer on a live framer is an operation of model, reachability and the whole-history theorem C07_history; several framer objects are kept alive and fed alternately; single messages around the 2^24 limit are judged by a Python rendering of the scan that is cross-checked against the Lean scan on every run.',
     ref='4 C07', technique='Lean 4 refinement proof (literal framer model -> re-feed machine -> scan spec) + inductive safety invariant; ASan/UBSan correspondence',
     note='Memory safety is a theorem on the model\'s explicit indices; the compiled code is validated under ASan/UBSan on the '
          'correspondence inputs. Two heap overflows fixed in /repo (c9bc15e, 51c058c). Trusted: Lean kernel + 3 axioms; harness; '
